@@ -1262,6 +1262,16 @@ def cond_fold(prog: Program) -> RuleResult:
                 f"(a flag, the result of a symbolic function called with ground arguments) is dropped from the chain instead of making it unsatisfiable")
     if n < 3:
         raise AnalysisError(f"COND-FOLD: only {n} constructors taking *conditions found")
+    # a condition may also be a predicate over concrete values (ConditionType lists Predicate): such an instance becomes a literal, and a
+    # literal in condition position is judged by the truth of its value - which therefore has to be the predicate's verdict
+    pred = prog.cls("predicate.Predicate")
+    truth = prog.lookup(pred.qual, "__bool__")
+    calls_self = truth is not None and truth.cls is not None and prog.is_subclass(pred.qual, truth.cls.qual) and any(
+        isinstance(x, ast.Return) and x.value is not None and any(isinstance(c, ast.Call) and isinstance(c.func, ast.Name) and c.func.id == truth.params[0] for c in ast.walk(x.value))
+        for x in walk_local(truth.node))
+    r.check(calls_self, "Predicate#truth-is-the-verdict", site(truth) if truth is not None else pred.loc, "__bool__" if truth is not None else "no __bool__",
+            "the truth value of a predicate instance is the result of calling it",
+            "a Predicate instance has the default truth value of an object (always true): entity(x, HasType(obj, T)) with a concrete obj holds for every x whatever the predicate says")
     return r
 
 
